@@ -1,6 +1,7 @@
 ---- MODULE MC_Determinism ----
 EXTENDS J2O_Determinism, Json
-MCKinds == {"ok", "ok_double", "fn_ok", "loop_ok", "nnx_linear", "tchain", "user_raise", "unsupported", "fn_body_fail", "save_fail"}
-MCFail == {"user_raise", "unsupported", "fn_body_fail", "save_fail"}
+MCKinds == {"ok", "ok_double", "fn_ok", "loop_ok", "nnx_linear", "tchain", "user_raise", "unsupported", "fn_body_fail", "save_fail", "fn_flaky_ok", "fn_flaky_fail"}
+MCFail == {"user_raise", "unsupported", "fn_body_fail", "save_fail", "fn_flaky_fail"}
+MCTarget(r) == CASE r \in {"fn_flaky_ok", "fn_flaky_fail"} -> "flaky" [] r = "fn_ok" -> "inner_ok" [] r = "fn_body_fail" -> "inner_unsupported" [] OTHER -> ""
 EmitHist == (Len(hist) = MaxHist /\ hist[MaxHist] \notin MCFail /\ hashSeed = 0) => PrintT(ToJson(hist))
 ====
